@@ -421,7 +421,7 @@ def hx6(F, R):
                 if a[0] == "call" and a[1].split("::")[-1] in ("as_str", "deref", "as_ref", "borrow") and a[2]:
                     a = strip_load(a[2][0])
             ok = a[0] == "call" and a[1].endswith("::print") and "Hex" in a[1] and strip_load(a[2][0]) == ("param", 1) and \
-                writes[0].uncond and not [f for f in writes[0].facts if "Level" not in repr(f)]
+                writes[0].uncond and not writes[0].conditions()
         # or: delegation to the other formatting trait of Hex
         deleg = [e for e in raw if e.kind == "call" and e.name == "fmt" and "Hex" in (e.callee.get("gargs", "") + e.path) and
                  e.args and strip_load(e.args[0]) == ("param", 1)]
